@@ -233,6 +233,104 @@ def check_dicke(ctx):
                 ctx.violation("dicke:distribution", "dicke_state(%d,%d) probabilities %s are not uniform on the weight-%d basis states" % (n, k, np.round(probs, 4).tolist(), k), c)
 
 
+# ---- the tolerance model (Tolerance.tla) ----------------------------------------------------------------
+TOLC = dict(Unit=10000000, Tol=100, Band=2, MaxOff=70)
+
+
+def _tol_amp(pv, i):
+    """entry i (0-based) of the two-entry state with probabilities pv (in units of 1/Unit): the second entry is imaginary"""
+    a = math.sqrt(pv / TOLC["Unit"])
+    return complex(a, 0.0) if i == 0 else complex(0.0, a)
+
+
+def _tol_dev(pv):
+    return abs(pv[0] + pv[1] - TOLC["Unit"])
+
+
+def replay_tolerance(ctx, steps, fresh_each=False):
+    """steps of Tolerance.tla on ONE real two-entry wavefunction (fresh_each: every step on an object built in its pre-state)"""
+    from orquestra.quantum.wavefunction import Wavefunction
+
+    lo, hi = TOLC["Tol"] - TOLC["Band"], TOLC["Tol"] + TOLC["Band"]
+    wf = None
+    hist = []
+    for st in steps:
+        pre, post = st["pre"], st["post"]
+        if wf is None or fresh_each:
+            try:
+                wf = Wavefunction(np.array([_tol_amp(pre[0], 0), _tol_amp(pre[1], 1)], dtype=complex))
+            except ValueError:
+                if _tol_dev(pre) <= lo:
+                    return [("tolerance:create", "amplitudes with squared magnitudes %s/%d (total off by %d units, tolerance %d) were rejected by the constructor" % (pre, TOLC["Unit"], _tol_dev(pre), TOLC["Tol"]))]
+                return []  # inside the band either answer is allowed: this state cannot be built, nothing to replay
+            hist = ["new(%s)" % pre]
+        i = st["i"] - 1
+        hist.append("wf[%d] = sqrt(%d/Unit)" % (i, pre[i] + st["d"]))
+        where = " ; ".join(hist[-5:])
+        before = np.array(wf.amplitudes, dtype=complex).copy()
+        try:
+            wf[i] = _tol_amp(pre[i] + st["d"], i)
+            out = "ok"
+        except ValueError:
+            out = "rejected"
+        if out != st["out"]:
+            if st["either"]:
+                return []  # floating point decided the other way inside the band: the behaviour of the specification ends here
+            tent = list(pre)
+            tent[i] += st["d"]
+            return [("tolerance:outcome", "%s: real outcome %s, specification %s (the total would be off by %d units of 1e-7, tolerance %d)" % (where, out, st["out"], _tol_dev(tent), TOLC["Tol"]))]
+        now = np.array(wf.amplitudes, dtype=complex)
+        want = np.array([_tol_amp(post[0], 0), _tol_amp(post[1], 1)])
+        if np.max(np.abs(now - want)) > 1e-12:
+            return [("tolerance:%s" % ("rollback" if out == "rejected" else "state"), "%s (outcome %s): the object holds %s, specification %s" % (where, out, now.tolist(), want.tolist()))]
+        if out == "rejected" and not np.array_equal(now, before):
+            return [("tolerance:rollback", "%s: rejected, but the amplitudes changed from %s to %s" % (where, before.tolist(), now.tolist()))]
+        # the statement itself: the object still satisfies the creation condition
+        tot = float(np.sum(np.abs(now) ** 2))
+        if _tol_dev(post) <= lo:
+            try:
+                Wavefunction(np.array(now))
+            except ValueError:
+                return [("tolerance:unnormalised", "%s: the object's own amplitudes (total %.9f) are no longer accepted by the constructor" % (where, tot))]
+        if abs(tot - 1) > (hi + 1) / TOLC["Unit"]:
+            return [("tolerance:unnormalised", "%s: squared magnitudes sum to %.9f" % (where, tot))]
+    return []
+
+
+def check_tolerance(ctx):
+    quick = ctx.tier == "quick"
+    inv, prop = ["StaysNormalised"], ["RejectedChangesNothing"]
+    res = ctx.tlc("Tolerance", constants=dict(TOLC, Local=False, Emitting=True, EmitOneIn=8 if quick else 1), invariants=inv, properties=prop, action_constraints=["Emit"], view="ViewP", coverage=False, timeout=1200)
+    if len(res.emitted) < 1000 or not any(e["out"] == "rejected" for e in res.emitted) or not any(e["either"] for e in res.emitted):
+        raise TLCError("Tolerance exported %d transitions (rejections / boundary cases missing)" % len(res.emitted))
+    # the shortcut that compares only the changed entry with the value it replaces must be refuted (drift)
+    r2 = ctx.tlc("Tolerance", constants=dict(TOLC, Local=True, Emitting=False, EmitOneIn=1), invariants=inv, coverage=False, timeout=600, allow_violation=True)
+    if "StaysNormalised" not in r2.violated:
+        raise TLCError("vacuity: the entry-local acceptance check is not refuted by Tolerance.tla")
+    edges = sorted(res.emitted, key=lambda e: json.dumps(e, sort_keys=True))
+    for e, fails in zip(edges, ctx.pmap(lambda w, e_: replay_tolerance(w, [e_], fresh_each=True), edges, chunksize=64)):
+        ctx.count({"k": "tolerance", "pre": e["pre"], "i": e["i"], "d": e["d"], "out": e["out"]}, kind="tolerance: single assignment at %s" % ("the boundary" if e["either"] else e["out"]))
+        for key_, msg in fails:
+            ctx.violation(key_, msg, {"k": "tolerance", "steps": [e]})
+    # behaviours drawn by TLC, each replayed on ONE object (whatever the object remembers between assignments is in play)
+    sim = ctx.tlc("Tolerance", constants=dict(TOLC, Local=False, Emitting=True, EmitOneIn=0), invariants=inv, action_constraints=["Emit"], simulate="num=%d" % (40 if quick else 400), depth=120, workers=1, coverage=False, timeout=1200, extra=[])
+    walks, cur = [], []
+    for e in sim.emitted:
+        if e["lvl"] == 1 and cur:
+            walks.append(cur)
+            cur = []
+        cur.append(e)
+    if cur:
+        walks.append(cur)
+    if len(walks) < 10 or max(len(w) for w in walks) < 50:
+        raise TLCError("Tolerance: only %d simulated behaviours" % len(walks))
+    for w in walks:
+        ctx.count({"k": "tolerance-walk", "len": len(w), "rejected": sum(1 for s_ in w if s_["out"] == "rejected")}, kind="tolerance: behaviour on one object")
+        for key_, msg in replay_tolerance(ctx, w):
+            ctx.violation(key_, msg, {"k": "tolerance", "steps": w})
+    ctx.bounds["tolerance"] = "two-entry states, probabilities in units of 1e-7 within +-70 units of 1/2, steps of +-40, +-7, +3 units; creation tolerance 100 units (numpy.isclose), band +-2"
+
+
 # ---- code -> spec ------------------------------------------------------------------------------------
 NUMS = {"0": 0j, "1": 1 + 0j, "h": 0.5 + 0j, "-h": -0.5 + 0j, "ih": 0.5j, "r": complex(math.sqrt(0.5)), "-r": -complex(math.sqrt(0.5)), "ir": 1j * math.sqrt(0.5)}
 
@@ -400,6 +498,7 @@ def run(ctx):
         for key_, msg in replay_walk(ctx, steps):
             ctx.violation(key_, msg, {"k": "walk", "steps": steps})
     check_dicke(ctx)
+    check_tolerance(ctx)
     traces = record_histories(ctx, 150 if quick else 1500)
     validate_histories(ctx, traces)
     ctx.by_kind["trace_events"] = sum(len(t["events"]) for t in traces)
@@ -418,6 +517,10 @@ def replay(ctx, case):
             ctx.violation(key_, msg, case)
     elif case.get("k") == "dicke":
         check_dicke(ctx)
+    elif case.get("k") == "tolerance":
+        ctx.count({"k": "tolerance", "n": len(case["steps"])})
+        for key_, msg in replay_tolerance(ctx, case["steps"], fresh_each=len(case["steps"]) == 1):
+            ctx.violation(key_, msg, case)
     else:
         traces = record_histories(ctx, 150)
         validate_histories(ctx, traces)
